@@ -31,21 +31,6 @@ theorem never_older_after_newer {s : State} (hr : Reachable s) {r : Nat} {rc : R
   rw [List.pairwise_cons] at h2
   exact h2.1 b (by simp)
 
-/-- What a live receiver can observe next is at least everything it has observed so far
-(the cell it is attached to never goes backwards). -/
-theorem next_observation_not_older {s s' : State} (hr : Reachable s) {r : Nat} {upd : Bool}
-    (hs : step s (.observe r upd) = some s') {rc' : Rcv} (h' : s'.rcvs[r]? = some rc') :
-    rc'.obs.Pairwise (· ≤ ·) :=
-  observed_monotone ⟨(Classical.choose hr) ++ [.observe r upd], by
-    have hrun := Classical.choose_spec hr
-    have : ∀ (ls : List Label) (t : State), run t (ls ++ [.observe r upd]) = (match step (run t ls) (.observe r upd) with
-        | some t' => t' | none => run t ls) := by
-      intro ls
-      induction ls with
-      | nil => intro t; simp only [List.nil_append, run]; cases step t (.observe r upd) <;> rfl
-      | cons l ls ih => intro t; simp only [List.cons_append, run]; cases step t l <;> exact ih _
-    rw [this, hrun, hs]⟩ h'
-
 theorem quiescent_cell {s : State} (hinv : Inv s) (hq : Quiescent s) :
     ∀ (k : Nat) (c : Nat) (cell : Cell), s.cells[c]? = some cell → (cell.depth - rootDepth s).toNat = k →
       cell.val = lastSent s ∧ cell.closed = !s.senderAlive := by
